@@ -146,7 +146,8 @@ def history(rng, nops=(2, 8), invalid_share=0.3, dtype_focus=False):
             elif bad == "zero_idiv":
                 ops.append({"op": "idiv", "h": h, "c": "0", "k": rng.choice(["pyint", "pyfloat"]), "expect_refused": True})
             elif bad == "set_dtype_bad":
-                ops.append({"op": "set_dtype", "h": h, "dtype": rng.choice(["int16", "int32", "float16"]), "maybe_refused": True,
+                rounded = any(o["op"] == "normalize" for o in ops)
+                ops.append({"op": "set_dtype", "h": h, "dtype": "float16" if rounded else rng.choice(["int16", "int32", "float16"]), "maybe_refused": True,
                             "via_property": rng.random() < 0.5})
             elif bad == "sub_too_much":
                 ops.append({"op": "isub", "h": h, "o": 1 - h, "maybe_refused": True})
@@ -198,8 +199,12 @@ def history(rng, nops=(2, 8), invalid_share=0.3, dtype_focus=False):
                 op["out"] = nfree; nfree += 1
             ops.append(op)
         elif kind == "set_dtype":
-            ops.append({"op": "set_dtype", "h": h, "dtype": rng.choice(DTYPES), "maybe_refused": True,
-                        "via_property": rng.random() < 0.5})
+            # after a normalisation the implementation's contents are *rounded* quotients (e.g. exactly 50.0) while the
+            # model's are the exact rationals (50 - 1e-15): whether they are integral is then not a question the two can
+            # be expected to agree on, so only float targets are asked for from there on
+            rounded = any(o["op"] == "normalize" for o in ops)
+            ops.append({"op": "set_dtype", "h": h, "dtype": rng.choice([d for d in DTYPES if d.startswith("float")] if rounded else DTYPES),
+                        "maybe_refused": True, "via_property": rng.random() < 0.5})
         elif kind == "copy":
             ops.append({"op": "copy", "h": h, "out": nfree, "with_freq": rng.random() < 0.8}); nfree += 1
         elif kind == "slice":
